@@ -34,9 +34,14 @@ DIAG_PATTERNS = [
     ("DEnumAlias", r"should not be an alias"),
     ("DEnumNonInt", r"can't handle non-integer constant type"),
     ("DEnumNotIntValue", r"constant is not an integer"),
+    ("DEnumNotExists", r"enum type not exists or has no constants"),
+    ("DDupOutput", r"more than one type is written to"),
+    ("DRestArrayReturn", r"unsupported array return type"),
     ("DRestNotExists", r"rest client interface not exists"),
     ("DRestParamType", r"unsupported param type"),
     ("DRestAmbiguousBody", r"ambiguous body binding"),
+    ("DRestAmbiguousQuery", r"ambiguous query map binding"),
+    ("DRestNeedsBody", r"needs a struct parameter as request body"),
     ("DRestBadPath", r"bad path format"),
     ("DRestFewResults", r"should at least return response and error"),
     ("DRestManyResults", r"must not return more than three"),
@@ -490,13 +495,15 @@ SITES = {
     "internal/shoot/source.go:113": "unreachable: all sources of one run carry the same package name",
     "internal/constructor/generator.go:91": "DNewNotExists", "internal/constructor/generator.go:132": "DNewNotStruct",
     "internal/constructor/fields.go:194": "DNewExportedGetSet",
-    "internal/enumer/generator.go:46": "DGormNeedsSql", "internal/enumer/str.go:35": "DEnumAlias",
+    "internal/enumer/generator.go:46": "DGormNeedsSql", "internal/enumer/generator.go:94": "DEnumNotExists",
+    "internal/shoot/generatorbase.go:368": "DDupOutput", "internal/restclient/cook.go:341": "DRestArrayReturn", "internal/enumer/str.go:35": "DEnumAlias",
     "internal/enumer/str.go:85": "redeclared constant (compile error): opaque stream only (dup_const)",
     "internal/enumer/str.go:89": "DEnumNonInt", "internal/enumer/str.go:93": "DEnumNotIntValue",
     "internal/enumer/str.go:98": "unreachable: an integer constant fits int64 or uint64 once type-checked",
     "internal/restclient/paramhandler.go:29": "DRestParamType",
     "internal/restclient/paramhandler.go:67": "not covered: build.Import of the parameter's package fails",
     "internal/restclient/paramhandler.go:71": "DRestExtract", "internal/restclient/paramhandler.go:117": "DRestAmbiguousBody",
+    "internal/restclient/paramhandler.go:123": "DRestAmbiguousQuery", "internal/restclient/cook.go:138": "DRestNeedsBody",
     "internal/restclient/cook.go:141": "DRestFewResults", "internal/restclient/cook.go:144": "DRestManyResults",
     "internal/restclient/cook.go:149": "DRestSecondToLast", "internal/restclient/cook.go:153": "DRestLast",
     "internal/restclient/cook.go:159": "DRestNamedResults", "internal/restclient/cook.go:180": "DRestNotExists",
@@ -762,7 +769,9 @@ def coverage_suite():
     add("DVersion", _case("new", ["version"], _new_pkg()))
     add("DHelp", _case("new", ["new", "-h"], _new_pkg()))
     add("DSuccess", _case("new", ["new", "-type=Order", "-getset", "-json"], _new_pkg()))
-    add("DNothing", _case("enum", ["enum", "-type=Nope"], _enum_pkg([])))
+    add("DNothing", _case("rest", ["rest", "-file=a.go"], _new_pkg()))
+    add("DEnumNotExists", _case("enum", ["enum", "-type=Color,Nope"], _enum_pkg([])))
+    add("DDupOutput", _case("new", ["new", "-type=Order,Order"], _new_pkg()))
     add("DUsageNoArgs", _case("new", [], _new_pkg()))
     add("DUsageUnknownSub", _case("new", ["bogus", "-type=Order"], _new_pkg()))
     add("DTopFlag", _case("new", ["-x", "new", "-type=Order"], _new_pkg()))
@@ -798,6 +807,11 @@ def coverage_suite():
     add("DRestParamType", _case("rest", ["rest", "-type=Client"], fs))
     fs, ex = _rest_pkg(params=[F.Param(["a"], F.tid("Req")), F.Param(["b"], F.tstar(F.tid("Req")))])
     add("DRestAmbiguousBody", _case("rest", ["rest", "-type=Client"], fs))
+    fs, ex = _rest_pkg(params=[F.Param(["q1", "q2"], ("map", F.tid("string"), F.tid("string")))])
+    add("DRestAmbiguousQuery", _case("rest", ["rest", "-type=Client"], fs))
+    fs, ex = _rest_pkg()
+    fs[0].decls[1][1][0].body[1][1].doc = ("req", "Post", '"/items"')
+    add("DRestNeedsBody", _case("rest", ["rest", "-type=Client"], fs))
     fs, ex = _rest_pkg(path='"/a"b"')
     add("DRestBadPath", _case("rest", ["rest", "-type=Client"], fs))
     fs, ex = _rest_pkg(results=[err])
@@ -812,6 +826,10 @@ def coverage_suite():
     add("DRestNamedResults", _case("rest", ["rest", "-type=Client"], fs))
     fs, ex = _rest_pkg(results=[F.Param([], F.tid("Req")), resp, err])
     add("DRestReturnType", _case("rest", ["rest", "-type=Client"], fs))
+    fs, ex = _rest_pkg(results=[F.Param([], ("arrn", F.tid("string"))), resp, err])
+    add("DRestArrayReturn", _case("rest", ["rest", "-type=Client"], fs))
+    fs, ex = _rest_pkg(results=[F.Param(["first", "second"], F.tstar(F.tsel("http", "Response")))])
+    add("DRestLast", _case("rest", ["rest", "-type=Client"], fs))
     fs, ex = _rest_pkg(params=[F.Param(["q"], F.tid("Req"))])
     add("DRestExtract", _case("rest", ["rest", "-type=Client"], fs, extra={"q7.broken.go": ("dangling",)}))
     add("DMapSrcNotExists", _case("map", ["map", "-path=../dest", "-type=Nope"], _map_src(), DEST_T))
